@@ -1,5 +1,5 @@
 from typing import List
-from sweetpea._internal.primitive import Factor, Level
+from sweetpea._internal.primitive import Factor, Level, HiddenName
 
 
 def _convert_from_name_to_factor(name: str, design: List[Factor]) -> Factor:
@@ -34,4 +34,9 @@ def convert_sample_from_names_to_objects(sample: dict, design: List[Factor]) -> 
         factor = _convert_from_name_to_factor(factor_name, design)
         value = [_convert_form_name_to_level(level_name, factor) for level_name in sample[factor_name]]
         new_dict[factor] = value
+    # A weighted factor outside the crossing is represented by a hidden derived factor that mirrors
+    # the visible one; a sample only has the visible name, so fill in the hidden factor's column
+    for factor in design:
+        if isinstance(factor.name, HiddenName) and factor not in new_dict and factor.name.name in sample:
+            new_dict[factor] = [_convert_form_name_to_level(level_name, factor) for level_name in sample[factor.name.name]]
     return new_dict
